@@ -874,13 +874,35 @@ def rule_r7(ctx) -> List[R.Inst]:
     if src is None:
         return [R.undec(rid, "read_file", file, rf.node.lineno, "source of the lines not found")]
     t = unparse(src.value)
+    # what read() actually receives: the argument of the read(..) call, locals bound once put back (text = …; read(text.split("\n")))
+    rc_ = [n for n in walk_no_nested(rf.node) if isinstance(n, ast.Call) and call_name(n) == "read" and isinstance(n.func, ast.Attribute) and
+           isinstance(n.func.value, ast.Name) and n.args]
+    if len(rc_) == 1:
+        import copy as _copy
+
+        def _res(e, depth=0):
+            class T(ast.NodeTransformer):
+                def visit_Name(self, n):
+                    ds = [x.value for x in walk_no_nested(rf.node) if isinstance(x, ast.Assign) and len(x.targets) == 1 and
+                          isinstance(x.targets[0], ast.Name) and x.targets[0].id == n.id]
+                    if isinstance(n.ctx, ast.Load) and len(ds) == 1 and depth < 4:
+                        return _res(ds[0], depth + 1)
+                    return n
+            return T().visit(_copy.deepcopy(e))
+        t = unparse(_res(rc_[0].args[0]))
     keeps_terminators = ".readlines()" in t or t.startswith("list(f") or t in ("[line for line in f]", "[l for l in f]")
     if keeps_terminators and joins_nl:
         insts.append(R.viol(rid, "read_file", file, src.lineno,
                             f"'{t}' keeps the line terminators and read() joins the lines with another '\\n': every line break is "
                             f"doubled, which turns a folded (wrapped) YAML scalar into one with literal newlines",
                             construct=f"read_file: {t}"))
-    elif ".read()" in t or ".read_text(" in t or ".splitlines()" in t or "rstrip" in t or "strip(" in t:
+    elif ".splitlines()" in t and joins_nl:
+        insts.append(R.viol(rid, "read_file", file, src.lineno,
+                            f"'{t}' cuts the text at every line boundary str.splitlines knows (\\r, \\x0b, \\x0c, \\x1c-\\x1e, \\x85, U+2028, U+2029), "
+                            f"and read() joins the pieces with '\\n': a quoted title that contains one of these characters comes back "
+                            f"with a line break (folded to a space by YAML) in its place — split at '\\n' only",
+                            construct=f"read_file: {t}"))
+    elif ".read()" in t or ".read_text(" in t or "rstrip" in t or "strip(" in t:
         insts.append(R.ok(rid, "read_file", file, src.lineno, idiom=f"{t}: text or terminator-free lines"))
     else:
         insts.append(R.undec(rid, "read_file", file, src.lineno, f"line source '{t}' not recognised"))
